@@ -335,9 +335,13 @@ def conjugate [Conj R] (f : Tensor R) : Tensor R := mk' f.dom f.cod f.arr.conj
 /-- `Tensor.zeros`, tensor.py:263-273. -/
 def zeros (dom cod : List Nat) : Tensor R := mk' dom cod (NDArray.zeros (dom ++ cod))
 
-/-- `Tensor.__add__`, tensor.py:159-166. -/
-def add (f g : Tensor R) : Except Err (Tensor R) :=
-  if (f.dom, f.cod) ≠ (g.dom, g.cod) then .error .axiom
+/-- `Tensor.__add__`, tensor.py:159-166.  The first test, `if other == 0: return self`
+    (tensor.py:160), is `Tensor.__eq__(other, 0) = numpy.all(other.array == 0)`
+    (tensor.py:172-173): an all-zero right operand of ANY type returns `self` unchanged, before
+    the type check of tensor.py:164. -/
+def add [DecidableEq R] (f g : Tensor R) : Except Err (Tensor R) :=
+  if g.arr.data.all (fun x => decide (x = 0)) then .ok f
+  else if (f.dom, f.cod) ≠ (g.dom, g.cod) then .error .axiom
   else .ok (mk' f.dom f.cod (f.arr.add g.arr))
 
 /-- The array of `Spider(n_in, n_out, dim)` for `len(dim) ≤ 1`, tensor.py:632-635:
